@@ -250,3 +250,46 @@ Theorem v3_weight_req_spec : forall known s hw hwc w wc,
   v3_weight_req known s hw hwc w wc =
   if v3_selected known s then emul (v3_read hw w) (v3_read hwc wc) else Fin 1.
 Proof. intros known s hw hwc w wc. unfold v3_weight_req. rewrite v3_weight_gen_eq. reflexivity. Qed.
+
+(* ------------------------------------------------------------------ HDF5 v3: every second-stage index *)
+Lemma nth_map_err' : forall {A B} (f : A -> B) l j d d', j < List.length l -> nth j (map f l) d = f (nth j l d').
+Proof.
+  intros A B f l. induction l as [| x l IH]; intros j d d' H; cbn in H; [lia |]. destruct j; cbn; [reflexivity |].
+  apply IH. lia.
+Qed.
+
+(* for EVERY choice of kept positions on the three axes (slices, integers, lists, masks; repeated or unsorted ones
+   included) the element (i, j, k) of d.weights[kt, kf, kb] is the product of the two stored arrays at dump kt[i],
+   channel kf[j], product kb[k] - outer indexing, never the pairwise rule *)
+Theorem v3_weights_outer : forall sel hw hwc w wc kt kf kb,
+  List.length (v3_weights_indexed sel hw hwc w wc kt kf kb) = List.length kt /\
+  forall i j k, i < List.length kt -> j < List.length kf -> k < List.length kb ->
+    List.length (nth i (v3_weights_indexed sel hw hwc w wc kt kf kb) []) = List.length kf /\
+    List.length (nth j (nth i (v3_weights_indexed sel hw hwc w wc kt kf kb) []) []) = List.length kb /\
+    Weights.get3 (v3_weights_indexed sel hw hwc w wc kt kf kb) NaN i j k =
+    v3_weight sel hw hwc (Weights.get3 w NaN (nth i kt 0) (nth j kf 0) (nth k kb 0))
+                         (nth (nth j kf 0) (nth (nth i kt 0) wc []) NaN).
+Proof.
+  intros sel hw hwc w wc kt kf kb. unfold v3_weights_indexed, outer3, outer2.
+  split; [rewrite map2_length, !map_length; apply Nat.min_id |].
+  intros i j k Hi Hj Hk.
+  assert (Row : nth i (map2 (map2 (fun cell c => map (fun x => v3_weight_gen sel hw hwc x c) cell))
+                         (map (fun t => map (fun f => map (fun b => Weights.get3 w NaN t f b) kb) kf) kt)
+                         (map (fun t => map (fun f => nth f (nth t wc []) NaN) kf) kt)) [] =
+                map2 (fun cell c => map (fun x => v3_weight_gen sel hw hwc x c) cell)
+                     (map (fun f => map (fun b => Weights.get3 w NaN (nth i kt 0) f b) kb) kf)
+                     (map (fun f => nth f (nth (nth i kt 0) wc []) NaN) kf)).
+  { rewrite (nth_map2 _ _ _ i [] [] []) by (rewrite !map_length; lia).
+    rewrite (nth_map_err' _ kt i [] 0) by exact Hi. rewrite (nth_map_err' _ kt i [] 0) by exact Hi. reflexivity. }
+  assert (Cell : nth j (map2 (fun cell c => map (fun x => v3_weight_gen sel hw hwc x c) cell)
+                          (map (fun f => map (fun b => Weights.get3 w NaN (nth i kt 0) f b) kb) kf)
+                          (map (fun f => nth f (nth (nth i kt 0) wc []) NaN) kf)) [] =
+                 map (fun x => v3_weight_gen sel hw hwc x (nth (nth j kf 0) (nth (nth i kt 0) wc []) NaN))
+                     (map (fun b => Weights.get3 w NaN (nth i kt 0) (nth j kf 0) b) kb)).
+  { rewrite (nth_map2 _ _ _ j [] [] NaN) by (rewrite !map_length; lia).
+    rewrite (nth_map_err' _ kf j [] 0) by exact Hj. rewrite (nth_map_err' _ kf j NaN 0) by exact Hj. reflexivity. }
+  split; [rewrite Row, map2_length, !map_length; apply Nat.min_id |].
+  split; [rewrite Row, Cell, !map_length; reflexivity |].
+  unfold Weights.get3 at 1. rewrite Row, Cell. rewrite map_map.
+  rewrite (nth_map_err' _ kb k NaN 0) by exact Hk. apply v3_weight_gen_eq.
+Qed.
